@@ -264,6 +264,36 @@ pub fn run(ctx: &Ctx, st: &mut Stats) {
             }
         }
     });
+    // every integer k up to the limit x operands whose whole seconds sit in the residue classes 0, 1, k-1 (mod k) with
+    // fractions at both ends of the second and around the 32-bit marks of a microsecond count scaled by 10^6
+    let lim2 = ctx.tier.pick(40, 6_000, 70_000);
+    ctx.par(st, "integers k x operands in residue classes mod k with extreme fractions (Time and IntervalDT)", true, 1, lim2, |st, k, rng| {
+        let fr = [0i64, 1, 483_647, 483_648, 499_999, 500_000, 999_992, 999_993, 999_999];
+        for res in [0i64, 1, k - 1, k / 2] {
+            let q = rng.range_i64(0, 86_399 / k.max(1));
+            let secs = (q * k + res).clamp(0, 86_399);
+            let f = *rng.pick(&fr);
+            let x = secs * 1_000_000 + f;
+            for kk in [k as f64, -(k as f64)] {
+                st.eval(&C::af(K::TmMul, x, kk), both);
+                st.eval(&C::af(K::TmDiv, x, kk), both);
+                st.eval(&C::af(K::DtMul, x, kk), both);
+                st.eval(&C::af(K::DtDiv, x, kk), both);
+                let days = rng.range_i64(0, 40) * DAY_US;
+                st.eval(&C::af(K::DtDiv, x + days, kk), both);
+                st.eval(&C::af(K::DtDiv, -(x + days), kk), both);
+            }
+        }
+        // all nine fractions of the last second before a multiple of k seconds
+        if k <= 86_399 {
+            for &f in &fr {
+                let x = (k - 1).clamp(0, 86_399) * 1_000_000 + f;
+                st.eval(&C::af(K::TmMul, x, k as f64), both);
+                st.eval(&C::af(K::TmDiv, x, k as f64), both);
+                st.eval(&C::af(K::TmMul, 59 * 1_000_000 + f, k as f64), both);
+            }
+        }
+    });
     // results aimed just below / just above a whole number: this is where "truncates toward zero" is decided
     let na = ctx.tier.pick(300, 1_500_000, ctx.big(30_000_000, 150_000_000));
     ctx.par(st, "aimed: real result within 2^-50..1e-7 relative of a whole number", false, 0, na, |st, _, rng| {
@@ -341,7 +371,7 @@ pub fn run(ctx: &Ctx, st: &mut Stats) {
         };
         let f = rand_f64(rng);
         let c = C::af(k, x, f);
-        st.eval_h(c.hash(k as u64), &c, both);
+        { let (an, td, ks) = crate::primers::g_context(c.a, c.b); crate::primers::eval_sched(st, rng, c.hash(k as u64), &c, &an, td, &ks, both); }
     });
 }
 
